@@ -25,6 +25,7 @@ var c10Polluters = []jsProg{
 	{"props-nested", `_.props.cfg.x = 99; _.props.list.push(1); return {};`},
 	{"props-top", `_.props.top = 1; delete _.props.cfg; return {};`},
 	{"props-array-of-maps", `_.props.hosts[0].up = false; _.props.hosts[0].tags.push("t"); _.props.hosts[1][0].deep = 2; return {};`},
+	{"props-top-whatever-the-props", `_.props.top = 1; _.props.leak = {a: 1}; delete _.props.s; return {};`},
 	{"implicit-global", `leak = 42; return {};`},
 	{"this-global", `this.leak2 = 43; return {};`},
 	{"object-prototype", `Object.prototype.polluted = 1; return {};`},
@@ -56,6 +57,7 @@ var c10Self = []jsProg{
 	{"self-prototype", `var was = ({}).selfp === undefined; Object.prototype.selfp = 1; return {was: was};`},
 	{"self-env", `var was = _.marker === undefined; _.marker = 1; return {was: was};`},
 	{"self-props-nested", `var was = _.props.cfg.x; _.props.cfg.x = 99; return {was: was};`},
+	{"self-props-top", `var was = _.props.selfmark === undefined; _.props.selfmark = 1; return {was: was};`},
 	{"self-bindings-nested", `var was = _.bindings.o.x; _.bindings.o.x = 99; return {was: was};`},
 }
 
@@ -74,6 +76,17 @@ type c10Case struct {
 	Seq   []string `json:"seq"`   // program names, executed in order on fresh copies of the same inputs
 	Via   string   `json:"via"`   // exec | walk
 	Share bool     `json:"share"` // the caller hands the same bindings/props objects to every execution
+	Props string   `json:"props,omitempty"` // "" populated | nil | empty : the step properties the caller supplies
+}
+
+func (cs c10Case) props() core.StepProps {
+	switch cs.Props {
+	case "nil":
+		return nil
+	case "empty":
+		return core.StepProps{}
+	}
+	return c10Props()
 }
 
 func c10Find(name string) jsProg {
@@ -94,12 +107,12 @@ type c10Obs struct {
 
 // c10Run executes the sequence; returns the observation of the last program and any caller-side damage.
 func c10Run(interp *ecmascript.Interpreter, compiled map[string]interface{}, cs c10Case) (last c10Obs, damage []string) {
-	bs, props := c10Bindings(), c10Props()
+	bs, props := c10Bindings(), cs.props()
 	bsSnap, propsSnap := snap.Of(bs), snap.Of(props)
 	for i, name := range cs.Seq {
 		p := c10Find(name)
 		if !cs.Share {
-			bs, props = c10Bindings(), c10Props()
+			bs, props = c10Bindings(), cs.props()
 		}
 		var obs c10Obs
 		if cs.Via == "exec" {
@@ -141,7 +154,7 @@ func c10Run(interp *ecmascript.Interpreter, compiled map[string]interface{}, cs 
 			}
 			if snap.Of(props) != propsSnap {
 				damage = append(damage, "caller-props-modified-by:"+name)
-				props = c10Props()
+				props = cs.props()
 				propsSnap = snap.Of(props)
 			}
 		}
@@ -166,10 +179,12 @@ func C10(c *vh.Ctx) {
 	// baselines: every probe alone, before anything has been polluted in this process
 	base := map[string]c10Obs{}
 	for _, via := range []string{"exec", "walk"} {
-		for _, l := range [][]jsProg{c10Probes, c10Self} {
-			for _, p := range l {
-				o, _ := c10Run(interp, compiled, c10Case{Seq: []string{p.Name}, Via: via})
-				base[via+"/"+p.Name] = o
+		for _, pv := range []string{"", "nil", "empty"} {
+			for _, l := range [][]jsProg{c10Probes, c10Self} {
+				for _, p := range l {
+					o, _ := c10Run(interp, compiled, c10Case{Seq: []string{p.Name}, Via: via, Props: pv})
+					base[via+"/"+pv+"/"+p.Name] = o
+				}
 			}
 		}
 	}
@@ -182,7 +197,7 @@ func C10(c *vh.Ctx) {
 		for _, d := range damage {
 			c.Violation("C10/"+d+"/via-"+cs.Via, fmt.Sprintf("sequence %v via %s: %s", cs.Seq, cs.Via, d), cs)
 		}
-		want := base[cs.Via+"/"+probe]
+		want := base[cs.Via+"/"+cs.Props+"/"+probe]
 		if last != want {
 			c.Violation(fmt.Sprintf("C10/later-execution-sees-earlier-one/%s-after-%s/via-%s", probe, cs.Seq[len(cs.Seq)-2], cs.Via),
 				fmt.Sprintf("sequence %v via %s: the last program returned %s (err=%v); run alone it returns %s (err=%v)", cs.Seq, cs.Via, last.Result, last.Err, want.Result, want.Err), cs)
@@ -195,8 +210,29 @@ func C10(c *vh.Ctx) {
 		}
 		return
 	}
-	c.Rule(fmt.Sprintf("%d polluting scripts (in-place mutation of bindings at depth 1-3, of nested and top-level props, implicit and this-globals, Object/Array/String prototypes, JSON/Math built-ins, replacing or freezing members of the environment object, polluting then failing) x %d probes + %d self-probing scripts; every ordered pair (polluter, probe), every triple (polluter, polluter, probe), and every self-probing script twice; through Interpreter.Exec with a shared compiled program and through Spec.Walk; with fresh and with shared caller bindings/props objects; oracle: the probe's bindings and emissions equal its solo result, the caller's bindings and props are snapshot-equal afterwards. non-trivial = every sequence.", len(c10Polluters), len(c10Probes), len(c10Self)))
+	c.Rule(fmt.Sprintf("%d polluting scripts (in-place mutation of bindings at depth 1-3, of nested and top-level props, implicit and this-globals, Object/Array/String prototypes, JSON/Math built-ins, replacing or freezing members of the environment object, polluting then failing) x %d probes + %d self-probing scripts; every ordered pair (polluter, probe), every triple (polluter, polluter, probe), and every self-probing script twice; through Interpreter.Exec with a shared compiled program and through Spec.Walk; with fresh and with shared caller bindings/props objects; pairs and self-probes also with nil and with empty step properties; oracle: the probe's bindings and emissions equal its solo result, the caller's bindings and props are snapshot-equal afterwards. non-trivial = every sequence.", len(c10Polluters), len(c10Probes), len(c10Self)))
 	var idx uint64
+	// the caller supplies no step properties (nil) or empty ones: pairs and self-probes
+	for _, via := range []string{"exec", "walk"} {
+		for _, pv := range []string{"nil", "empty"} {
+			for _, share := range []bool{false, true} {
+				for _, s := range c10Self {
+					idx++
+					if c.Mine(idx) {
+						one(c10Case{Seq: []string{s.Name, s.Name}, Via: via, Share: share, Props: pv})
+					}
+				}
+				for _, p1 := range c10Polluters {
+					for _, q := range c10Probes {
+						idx++
+						if c.Mine(idx) {
+							one(c10Case{Seq: []string{p1.Name, q.Name}, Via: via, Share: share, Props: pv})
+						}
+					}
+				}
+			}
+		}
+	}
 	for _, via := range []string{"exec", "walk"} {
 		for _, share := range []bool{false, true} {
 			for _, s := range c10Self {
